@@ -6,6 +6,18 @@ CHECKS = {
    text="For every program of a bounded, seeded family (plus every source under test/ and examples/) the real compile_code output is executed on a symbolic IC10 machine against a reference interpreter of the dialect; z3 decides for every explored path pair whether the effect traces can differ for any device input; counterexamples are replayed concretely. Programs are enumerated, inputs are solver-quantified within step/effect/path bounds.",
    note="Trusted: IC10 semantics table and loader written for this project, dialect interpreter (README semantics), real-arithmetic abstraction of doubles with concrete replay, environment model (reads fixed between effects). Known-miscompiled constructs are gated out of the family and kept as witnesses (known_findings.json).",
    technique="symbolic execution of emitted IC10 + source, z3 trace-equivalence per path, concrete replay"),
+ "C04": dict(level="exploration", design="DESIGN.md 4 C04",
+   text="Lock-step of the virtual-register instruction list (captured at the real assign_registers call) and the allocated listing on the symbolic IC10 machine: at every register read of every explored path z3 decides whether the physical register can hold a value different from the one last written to the same virtual register. Register-pressure family: k simultaneously live values, k>16 must be rejected, only r0-r15 may appear.",
+   note="Trusted: IC10 machine semantics; the harness-side wrapper around assign_registers (the real function runs unchanged). Programs enumerated (seeded generator x option vectors, repository sources, pressure family); inputs solver-quantified within bounds.",
+   technique="symbolic lock-step execution with z3 equality queries per register read, concrete replay"),
+ "C06": dict(level="exploration", design="DESIGN.md 4 C06",
+   text="Symbolic IC10 machine with a shadow call stack: at every `j ra` of every explored path the target must be the pending return address and sp must equal its value at the call (push/pop convention adjusted); the same call-graph programs are compared with the dialect interpreter under 8 calling-convention vectors; recursive programs must be rejected.",
+   note="Trusted: IC10 machine, dialect interpreter, function table captured from the compiler (arity, has-return). Call graphs enumerated (3 fixed + seeded), inputs solver-quantified.",
+   technique="symbolic execution with shadow-stack monitor + z3 trace equivalence, concrete replay"),
+ "C07": dict(level="exploration", design="DESIGN.md 4 C07",
+   text="Symbolic IC10 machine with region monitor (owner function of every line from the compiler's instruction list): on every explored path control may enter a function region only by a call / tail call to its first line or by a return. The main->first-function fall-through of the pinned tree is a known finding keyed by mechanism; any other crossing is a violation.",
+   note="Trusted: region alignment from the captured instruction list; IC10 machine. Programs enumerated, inputs solver-quantified.",
+   technique="symbolic execution with region monitor, z3 path feasibility, concrete replay"),
 }
 NA = {
  "C10": "quantifies over arbitrary texts (C parser boundary), wall-clock time and OS child processes; no SMT-encodable assertion over the code within reach (DESIGN.md 5)",
